@@ -446,7 +446,9 @@ pub fn structural_tags(e: &crate::Expr) -> Vec<String> {
             AtomicGroup(c) => walk(c, true, in_lookbehind, tags),
             LookAround(c, la) => {
                 let lb = matches!(la, crate::LookAround::LookBehind | crate::LookAround::LookBehindNeg);
-                walk(c, in_atomic_scope, in_lookbehind || lb, tags)
+                // the body of a positive look-around is compiled between BeginAtomic/EndAtomic
+                let pos = matches!(la, crate::LookAround::LookAhead | crate::LookAround::LookBehind);
+                walk(c, in_atomic_scope || pos, in_lookbehind || lb, tags)
             }
             KeepOut => {
                 if in_lookbehind {
@@ -499,6 +501,7 @@ fn process_inner(cfg: &RunCfg, item: &Item, rep: &mut PatReport) {
         "C13" => crate::props2::process_c13(cfg, item, rep),
         "C17" => crate::props2::process_escape(cfg, item, rep),
         "C04" => crate::props2::process_c04(cfg, item, rep),
+        "C08" | "C09" | "C10" | "C11" | "C16" => crate::props3::process_wrappers(cfg, item, rep),
         other => {
             rep.status = std::format!("error:unknown property {}", other);
         }
@@ -581,6 +584,9 @@ pub fn work_list(cfg: &RunCfg) -> WorkList {
     if let Some(w) = crate::props2::work_list(cfg) {
         return w;
     }
+    if let Some(w) = crate::props3::work_list(cfg) {
+        return w;
+    }
     let feats = feats_for(&cfg.prop);
     let thorough = cfg.tier == "thorough";
     let mut fixed: Vec<Item> = Vec::new();
@@ -616,6 +622,9 @@ pub fn work_list(cfg: &RunCfg) -> WorkList {
 
 pub fn random_item(cfg: &RunCfg, w: &WorkList, rng: &mut Rng, k: usize) -> Item {
     if let Some(it) = crate::props2::random_item(cfg, w, rng, k) {
+        return it;
+    }
+    if let Some(it) = crate::props3::random_item(cfg, w, rng, k) {
         return it;
     }
     let p = corpus::random_pattern(rng, w.feats, w.max_depth);
